@@ -149,3 +149,15 @@ def run(cx):
             zero_check(cx, fd, P, cn, 'decrypt', t)
         else:
             cx.lost('F-ZERO-CHECK', 'decrypt', 'expected one kdf call in decrypt')
+
+
+_run_min = run
+
+
+def run(cx):
+    _run_min(cx)
+    # round trip: decryption must not refuse the shortest ciphertexts encryption can produce
+    fd = cx.fn('<impl key::Sm2PrivateKey>::decrypt')
+    if fd is not None:
+        from .C06 import dec_minlen
+        dec_minlen(cx, fd)
